@@ -178,7 +178,7 @@ func runTracePins(x *verifkit.Ctx, c tpCase) (pinned int, acrossMerge bool, err 
 
 func TestVerifC05Trace(t *testing.T) {
 	verifkit.Run(t, verifkit.Spec[tpCase]{
-		Property: "C05", Unit: "trace_pins",
+		Property: "C05", Unit: "trace_pins", CrashReplay: true,
 		Rule: "a trace shard (real tsTable with the real introducer, secondary index attached): 2..6 write batches over 6 traces with generated flushes and merges of " +
 			"arbitrary subsets of file parts, while up to 3 readers pin the current snapshot and read all of its parts any number of steps later; oracle: a pinned " +
 			"reader reads exactly the spans acknowledged at its pin, never fails and never finds a part directory of its snapshot deleted; unpinned reads of " +
